@@ -13,7 +13,11 @@ conflict - a commit that wrote or declared-current an object that was not
            had a newer revision;
 replay   - each object's final value is the one written by the last
            successful writer in tid order;
-retry    - covered by chain + conflict on programs that retry.
+retry    - covered by chain + conflict on programs that retry;
+merge    - an object whose class merges (a bit set, every writer adds its
+           own bit): every revision keeps all bits of the one before, every
+           committed bit is in the final state, a failed commit's bit is
+           nowhere.
 """
 import itertools
 
@@ -35,6 +39,11 @@ WY_SP_RCX = [('open',), ('w', 'y'), ('sp',), ('rc', 'x'), ('commit',),
              ('close',)]
 RX_WX = [('open',), ('r', 'x'), ('w', 'x'), ('commit',), ('close',)]
 
+IK = [('open',), ('inc', 'k'), ('commit',), ('close',)]
+IK_RETRY = [('open',), ('inc', 'k'), ('commit',), ('inc', 'k'), ('commit',),
+            ('close',)]
+IK_WX = [('open',), ('inc', 'k'), ('w', 'x'), ('commit',), ('close',)]
+
 HARNESSES = {
     'wx|wx': [WX, WX],
     'wx-retry|wx': [WX_RETRY, WX],
@@ -42,6 +51,11 @@ HARNESSES = {
     'rcx-wy|wx': [RCX_WY, WX],
     'rcx-wy-sp|wx': [RCX_WY_SP, WX],
     'wy-sp-rcx|wx': [WY_SP_RCX, WX],
+    'ik|ik': [IK, IK],
+    'ik-retry|ik': [IK_RETRY, IK],
+    'ik-wx|wx': [IK_WX, WX],
+    'ik-wx|ik-wx': [IK_WX, IK_WX],
+    'ik|ik|ik': [IK, IK, IK],
     'wx|wx|wx': [WX, WX, WX],
     'wxy|wy2|wx': [WXY, WY2, WX],
 }
@@ -49,15 +63,21 @@ HARNESSES = {
 CATALOG = {
     'wx': WX, 'wx-retry': WX_RETRY, 'wxy': WXY, 'wy2': WY2,
     'rcx-wy': RCX_WY, 'rcx-wy-sp': RCX_WY_SP, 'wy-sp-rcx': WY_SP_RCX,
-    'rx-wx': RX_WX,
+    'rx-wx': RX_WX, 'ik': IK, 'ik-retry': IK_RETRY, 'ik-wx': IK_WX,
 }
+MERGE = ('k',)
+# quick tier: the merging programs against each other and against a plain
+# writer of the object they also write (thorough: every pair)
+MERGE_PAIRS = {('ik', 'ik'), ('ik', 'ik-retry'), ('ik', 'ik-wx'),
+               ('ik-wx', 'ik-wx'), ('ik-wx', 'wx')}
 KINDS = ('F', 'M', 'DMM', 'DFM')
 
 
 def run_one(cfg, choices):
     sched.install_locks()
     iolog.READS[0] = True
-    w = dbworld.DBWorld(cfg['kind'], record=cfg['kind'] in ('F', 'DFM'))
+    w = dbworld.DBWorld(cfg['kind'], record=cfg['kind'] in ('F', 'DFM'),
+                        merge_names=MERGE)
     progs = [dbworld.Prog(w, i, [tuple(s) for s in steps])
              for i, steps in enumerate(HARNESSES[cfg['name']])]
     bodies = [(lambda s, t, p=p: p.run()) for p in progs]
@@ -88,6 +108,17 @@ def judge_events(w):
             val2tid[(n, st.get('v'))] = tid
     # chain
     for n, rl in byname.items():
+        if n in w.merge_names:
+            # a merging class: every revision keeps all bits of the one
+            # before it (a merge that drops the other writer's change is a
+            # lost update)
+            for i in range(1, len(rl)):
+                if rl[i - 1][1].get('v') & ~rl[i][1].get('v'):
+                    viol.append(('merge', 'revision-lost-earlier-change',
+                                 dict(obj=n, revision=rl[i][0],
+                                      value=rl[i][1].get('v'),
+                                      previous=rl[i - 1][1].get('v'))))
+            continue
         for i in range(1, len(rl)):
             tid, st = rl[i]
             if st.get('base') != rl[i - 1][0]:
@@ -95,7 +126,7 @@ def judge_events(w):
                              dict(obj=n, revision=tid, base=st.get('base'),
                                   previous=rl[i - 1][0])))
     # commits
-    writes, rcs = {}, {}
+    writes, rcs, incs = {}, {}, {}
     starts = {}
     outcomes = []
     for i, ev in enumerate(w.events):
@@ -103,6 +134,9 @@ def judge_events(w):
         if k == 'write':
             d = writes.setdefault((ev[1], ev[2]), {})
             d[ev[3]] = (ev[4], ev[5])       # name -> (base, value); last wins
+        elif k == 'inc':
+            incs.setdefault((ev[1], ev[2]), []).append(
+                (ev[3], ev[4], ev[5]))      # name, bit, serial loaded
         elif k == 'readcurrent':
             rcs.setdefault((ev[1], ev[2]), {})[ev[3]] = ev[4]
         elif k == 'commit-start':
@@ -111,6 +145,11 @@ def judge_events(w):
             viol.append(('error', '%s:%s' % (k, ev[4]), dict(event=ev)))
         elif k == 'commit-done':
             key = (ev[1], ev[2])
+            for n, bit, serial in incs.get(key, ()):
+                final = byname[n][-1][1].get('v') if byname[n] else 0
+                if not final & bit:
+                    viol.append(('merge', 'committed-change-lost',
+                                 dict(txn=key, obj=n, bit=bit, final=final)))
             ws = writes.get(key, {})
             tids = {val2tid.get((n, v)) for n, (b, v) in ws.items()}
             if ws and (len(tids) != 1 or None in tids):
@@ -136,6 +175,10 @@ def judge_events(w):
                 viol.append(('error', 'commit:%s' % ev[3], dict(event=ev)))
                 continue
             # stores nothing
+            for n, bit, serial in incs.get(key, ()):
+                if any(st.get('v') & bit for t, st in byname[n]):
+                    viol.append(('conflict', 'failed-commit-left-data',
+                                 dict(txn=key, obj=n, bit=bit)))
             for n, (b, v) in ws.items():
                 if (n, v) in val2tid:
                     viol.append(('conflict', 'failed-commit-left-data',
@@ -144,6 +187,8 @@ def judge_events(w):
             # had started committing before this failure
             deps = {n: b for n, (b, v) in ws.items()}
             deps.update(rcs.get(key, {}))
+            for n, bit, serial in incs.get(key, ()):
+                deps[n] = serial
             just = False
             for n, serial in deps.items():
                 for t, st in byname[n]:
@@ -180,7 +225,7 @@ def seq_task(kind, names):
     count = 0
     for order in interleavings([len(p) for p in progs_steps]):
         count += 1
-        w = dbworld.DBWorld(kind, record=False)
+        w = dbworld.DBWorld(kind, record=False, merge_names=MERGE)
         try:
             progs = [dbworld.Prog(w, i, st)
                      for i, st in enumerate(progs_steps)]
@@ -321,15 +366,21 @@ def run(rep, tier, seed, workers):
         'schedules: every schedule with at most the stated number of '
         'preemptions of 2-3 committer harnesses (same object, retry after '
         'conflict, two objects with a conflict on the second, readCurrent '
-        'with and without savepoint) on FileStorage, MappingStorage and two '
-        'DemoStorage layerings; interleavings: all merges of pairs of 8 step '
-        'programs on the 4 storages; non-trivial = distinct outcome '
+        'with and without savepoint; increments of an object whose class '
+        'merges, alone, with retry and together with a conflicting plain '
+        'write) on FileStorage, MappingStorage and two '
+        'DemoStorage layerings; interleavings: all merges of pairs of 11 step '
+        'programs on the 4 storages (quick: the merging programs only in 5 '
+        'pairs); non-trivial = distinct outcome '
         '(sequence of commit results x revisions per object)')
     plan = []
     for kind in KINDS:
         for name in HARNESSES:
             three = len(HARNESSES[name]) == 3
             if three and (tier == 'quick' and kind not in ('F', 'M')):
+                continue
+            if tier == 'quick' and name.startswith('ik') and (
+                    kind not in ('F', 'DMM') or (three and kind != 'F')):
                 continue
             plan.append((dict(prop='C03', kind=kind, name=name),
                          bound - 1 if three else bound))
@@ -339,13 +390,17 @@ def run(rep, tier, seed, workers):
     tasks = []
     for kind in KINDS:
         for pair in itertools.combinations_with_replacement(names, 2):
+            if tier == 'quick' and any(n.startswith('ik') for n in pair) \
+                    and pair not in MERGE_PAIRS:
+                continue
             tasks.append((MOD, 'seq_task', (kind, pair)))
     tasks += [(MOD, 'undo_scenarios', (k,)) for k in ('F', 'DMF')]
     par.run_tasks(tasks, workers, rep, seed)
     rep.bounds['interleaved program pairs'] = len(tasks) - 2
     rep.cov['distinct_nontrivial'] = len(rep.outcomes)
     rep.assumptions = [
-        'objects of a class without conflict resolution (resolution is C10)',
+        'the merging class is a bit set whose resolver is correct; what the '
+        'resolver is shown and what is stored is C10',
         'CPython GIL semantics; points at lock operations and recorded I/O']
 
 
